@@ -572,6 +572,9 @@ func c03Gen(t *rapid.T) c03Case {
 		}
 		for i, n := range others {
 			e := c03Extra{Name: n, MatRules: genList(fmt.Sprintf("xm%d", i)), ProdRules: genList(fmt.Sprintf("xp%d", i))}
+			if rapid.IntRange(0, 3).Draw(t, fmt.Sprintf("xruleless%d", i)) == 0 {
+				e.MatRules, e.ProdRules = [][]string{}, [][]string{} // an item without any rule
+			}
 			if rapid.Bool().Draw(t, fmt.Sprintf("xbefore%d", i)) {
 				c.Before = append(c.Before, e)
 			} else {
